@@ -96,6 +96,10 @@ func c07R5(r *Report) {
 	if sh := p.Func("crypto", "ServerHandshake"); sh != nil {
 		c08R1(r.sub("R5"), sh)
 	}
+	// the client's side of the agreement, including what happens to the bytes glued to the server's reply (C08.R2/R3)
+	if ch := p.Func("crypto", "ClientHandshake"); ch != nil {
+		c08R2(r.sub("R5"), ch)
+	}
 }
 
 // underlyingBuf follows re-slicing / append(buf, …) back to the buffer variable's defining values.
